@@ -9,10 +9,11 @@ WT=/var/tmp/confirm-$NAME
 rm -rf "$WT"; git -C /repo worktree prune; git -C /repo worktree add -q --detach "$WT" main || exit 3
 H=/var/tmp/confirm-h-$NAME; rm -rf $H; mkdir -p $H/tests $H/src $H/.cargo
 sed -e 's|^name = "algebra-mc"|name = "seed-demo"|' -e '/^\[lib\]/,/^$/d' /verif/harness/Cargo.toml > $H/Cargo.toml
-# demos written for a curve crate's tests/ directory may use that crate's dev-dependency ark-algebra-test-templates
-sed -i 's|^stateright = "0.31"|stateright = "0.31"\nark-algebra-test-templates = { path = "/repo/test-templates", default-features = false }|' $H/Cargo.toml
 cp /verif/harness/Cargo.lock $H/; cp /verif/harness/.cargo/config.toml $H/.cargo/; echo "" > $H/src/lib.rs
 cp "$DEMO" $H/tests/demo.rs
+# demos written for a curve crate's tests/ directory may reach num-bigint / num-integer / num-traits through that
+# crate's dev-dependency ark-algebra-test-templates (re-exports); the scratch package depends on them directly
+sed -i 's|^use ark_algebra_test_templates::{$|use {|' $H/tests/demo.rs
 CFG=$(python3 - "$WT" <<'PY'
 import os,sys
 ov=sys.argv[1]; d=[]
